@@ -67,7 +67,7 @@ def process_case(case, lit, want_text, capture_opt=False, disable_opt=False):
     if want_text and is_c:
         out["forms"] = form_dispatch(cap)
     for k in cap.kernels:
-        kd = {"name": ffx.kernel_name(k), "kind": k["kind"]}
+        kd = {"name": ffx.kernel_name(k), "kind": k["kind"], "scopes": k.get("scopes")}
         try:
             kd["contract"] = ffx.kernel_contract(cap, k)
             body, itn = ffx.conv_kernel(k["ast"], ffx.c_printed if lit == "c_printed" else None)
